@@ -141,8 +141,23 @@ def make_policy(case, iv, skip=()):
     pol = AES256ColumnEncryptionPolicy(iv=iv)
     for i, c in enumerate(case['cols']):
         if c['key'] is not None and i not in skip:
+            if i in (case.get('rereg') or []):
+                # registered a first time with placeholder settings (other key, plaintext type blob), then again with the real ones
+                pol.add_column(ColDesc(*col_desc(case, i)), b'\xee' * 32, 'blob')
             pol.add_column(ColDesc(*col_desc(case, i)), bytes.fromhex(c['key']), c['type'])
     return pol
+
+
+class _NoSchema(object):
+    keyspaces = {}
+
+
+def prepared(case, meta, pv, pol):
+    """the statement as Session.prepare builds it: PreparedStatement.from_message on the PREPARED response's bind metadata and
+    partition-key indexes ([] = none given: protocol v3, or the key is not fully bound)"""
+    from cassandra.query import PreparedStatement
+    pk = list(case.get('pk_indexes') or []) if pv >= 4 else []
+    return PreparedStatement.from_message(b'qid', meta, pk, _NoSchema(), 'q', 'ks', pv, meta, None, pol)
 
 
 def result_class(handler):
@@ -213,7 +228,7 @@ def run_impl(case, handler='pure'):
             for p_ in (pol, pol2):
                 p_.add_column(ColDesc(*col_desc(case, i)), bytes.fromhex(case['cols'][i]['key']), case['cols'][i]['type'])
     for row in case['rows']:
-        ps = PreparedStatement(meta, b'qid', None, 'q', 'ks', pv, meta, None, pol2 if row.get('foreign') else pol)
+        ps = prepared(case, meta, pv, pol2 if row.get('foreign') else pol)
         vals = [pyval(v) for v in row['vals']]
         try:
             bs = ps.bind(vals)
